@@ -20,6 +20,8 @@ import (
 	dsig "github.com/russellhaering/goxmldsig"
 	"github.com/zitadel/saml/pkg/provider"
 	"github.com/zitadel/saml/pkg/provider/key"
+	"github.com/zitadel/saml/pkg/provider/xml/md"
+	"github.com/zitadel/saml/pkg/provider/xml/samlp"
 
 	"verif/harness/internal/c18"
 	"verif/harness/internal/coqgen"
@@ -445,6 +447,36 @@ func Run(dir, tier string, seed int64) error {
 					fail("issuer-differs-from-entity-id", fmt.Sprintf("%s Issuer %q, metadata entityID %q", q.what, got, entity), desc)
 				}
 			}
+			// advertised = checked: a request addressed to the advertised single sign-on location (or to nothing) passes the
+			// Destination check of this very configuration and host; one addressed elsewhere is refused
+			advSSO, advSLO := "", ""
+			for _, a := range advs {
+				if a.svc == 0 && advSSO == "" {
+					advSSO = a.loc
+				}
+				if a.svc == 1 && advSLO == "" {
+					advSLO = a.loc
+				}
+			}
+			if advSSO != "" { // (the environment has the base service provider registered, unsigned requests allowed)
+				for _, dest := range []string{"", advSSO, advSSO + "/", advSLO, strings.TrimSuffix(issuer, "/") + "/nowhere", rel(eff[3].path)} {
+					attrD := ""
+					if dest != "" {
+						attrD = ` Destination="` + idp.EscAttr(dest) + `"`
+					}
+					arD := `<samlp:AuthnRequest xmlns:samlp="urn:oasis:names:tc:SAML:2.0:protocol" xmlns:saml="urn:oasis:names:tc:SAML:2.0:assertion" ID="_ar" Version="2.0" IssueInstant="` + idp.NowInstant() + `"` + attrD + ` ProtocolBinding="` + idp.PostBinding + `"><saml:Issuer>` + sso.SPEntity + `</saml:Issuer></samlp:AuthnRequest>`
+					env.Storage.ResetLog()
+					rp := env.Do(idp.ReqSpec{Method: http.MethodPost, Path: esc(rel(eff[3].path)), Host: host, Header: spec.Header, Body: []idp.Param{idp.Q("SAMLRequest", idp.B64([]byte(arD)))}}.HTTP())
+					run.Res.Evaluations++
+					accepted := rp.Kind == "login-redirect" && env.Storage.CountOp("CreateAuthRequest") > 0
+					expect := dest == "" || dest == advSSO
+					run.Count(fmt.Sprintf("destination=advertised:%v accepted=%v", dest == advSSO, accepted))
+					if accepted != expect {
+						fail("destination-check-differs-from-advertised-location", fmt.Sprintf("advertised SingleSignOnService %q; a request with Destination %q accepted=%v (%s %d)", advSSO, dest, accepted, rp.Kind, rp.Code),
+							map[string]interface{}{"conf": desc, "destination": dest, "advertised": advSSO})
+					}
+				}
+			}
 			// the certificate: KeyDescriptor = certificate endpoint = response signing key
 			var mdCert string
 			rep.Doc.Walk(func(n *idp.Node) {
@@ -537,6 +569,64 @@ func Run(dir, tier string, seed int64) error {
 			id++
 		}
 	}
+	// ---- the two Destination checks (hooks VerifDestinationOf*) against the generated Gallina
+	{
+		locPool := []string{"https://idp.example/SSO", "https://idp.example/SSO/", "https://idp.example/sso", "https://idp.example/attribute", "", "/SSO", "https://idp.example/with space", "https://idp.example/ü", "x"}
+		bindPool := []string{provider.RedirectBinding, provider.PostBinding, "", "urn:other"}
+		nd := 300
+		if tier == "thorough" {
+			nd = 3000
+		}
+		for k := 0; k < nd; k++ {
+			var eps []md.EndpointType
+			for n := r.Intn(4); n > 0; n-- {
+				eps = append(eps, md.EndpointType{Binding: bindPool[r.Intn(len(bindPool))], Location: locPool[r.Intn(len(locPool))], ResponseLocation: []string{"", "https://r"}[r.Intn(2)]})
+			}
+			dest := locPool[r.Intn(len(locPool))]
+			switch r.Intn(6) {
+			case 0:
+				dest += "/"
+			case 1:
+				dest = strings.ToUpper(dest)
+			case 2:
+				if len(eps) > 0 {
+					dest = eps[r.Intn(len(eps))].Location
+				}
+			}
+			attr := k%2 == 1
+			var err error
+			if attr {
+				err = provider.VerifDestinationOfAttrQuery(&md.AttributeAuthorityDescriptorType{AttributeService: eps}, &samlp.AttributeQueryType{Destination: dest})
+			} else {
+				err = provider.VerifDestinationOfAuthRequest(&md.IDPSSODescriptorType{SingleSignOnService: eps}, &samlp.AuthnRequestType{Destination: dest})
+			}
+			obs := "None"
+			if err != nil {
+				obs = "(Some " + coqgen.Bytes(err.Error()) + ")"
+			}
+			var ce []string
+			for _, e := range eps {
+				ce = append(ce, fmt.Sprintf("(%s, %s, %s)", coqgen.Bytes(e.Binding), coqgen.Bytes(e.Location), coqgen.Bytes(e.ResponseLocation)))
+			}
+			run.Res.Evaluations++
+			run.Count(fmt.Sprintf("destination-check attr=%v endpoints=%d refused=%v", attr, len(eps), err != nil))
+			run.AddCase(id, fmt.Sprintf("KDest %s %s %s %s %s", coqgen.Z(int64(id)), coqgen.Bool(attr), coqgen.List(ce), coqgen.Bytes(dest), obs), map[string]interface{}{"attribute_query": attr, "endpoints": eps, "destination": dest, "error": fmt.Sprint(err)})
+			// independent: refused iff a Destination is given and is not literally one of the locations
+			want := false
+			if dest != "" {
+				want = true
+				for _, e := range eps {
+					if e.Location == dest {
+						want = false
+					}
+				}
+			}
+			if want != (err != nil) {
+				fail("destination-check-differs-from-location-list", fmt.Sprintf("Destination %q, locations %v: refused=%v", dest, eps, err != nil), map[string]interface{}{"attribute_query": attr, "endpoints": eps, "destination": dest})
+			}
+			id++
+		}
+	}
 	// ---- the exported Endpoint methods against the generated Gallina
 	for _, p := range []string{"", "/", "x", "/x", "x/", "//x", "a/b", "/a/b/", "metadata", "ü", "a b"} {
 		for _, u := range []string{"", "https://other.example/x", "relative"} {
@@ -548,7 +638,7 @@ func Run(dir, tier string, seed int64) error {
 			}
 		}
 	}
-	run.Res.Rule = "provider configurations: every issuer kind (static with/without path and trailing slash, with port; host-derived with / without path and leading slash; Forwarded-derived) with the default endpoints; each of the six endpoints (metadata, certificate, callback, SSO, SLO, attribute) set to each of 8 shapes (custom path with/without leading slash, trailing slash, empty, '/', upper case, with space, external URL) and to 5 colliding paths, the others default; random combinations. Per configuration and request host: which handler answers each route (fingerprints taken from a default provider) vs the Coq first-match model; entityID and the five advertised locations vs the model; independently: each path-configured advertised location, with the issuer prefix stripped, must be answered by the handler of its service (configurations with colliding routes are counted separately and only compared with the model), the Issuer of a LogoutResponse and of a refused Response must equal the entityID, the KeyDescriptor certificate must equal the certificate endpoint's and verify an issued assertion, also after the signing key was replaced in storage; WantAuthRequestsSigned in 10 spellings x SP flag: advertised string = configured string, and advertised xs:true <=> an unsigned request (POST and Redirect) is refused; the exported Endpoint methods vs the generated Gallina on 198 (path, url, host) triples. distinct = (issuer kind, metadata / SSO / attribute endpoint shape, routes distinct)."
+	run.Res.Rule = "provider configurations: every issuer kind (static with/without path and trailing slash, with port; host-derived with / without path and leading slash; Forwarded-derived) with the default endpoints; each of the six endpoints (metadata, certificate, callback, SSO, SLO, attribute) set to each of 8 shapes (custom path with/without leading slash, trailing slash, empty, '/', upper case, with space, external URL) and to 5 colliding paths, the others default; random combinations. Per configuration and request host: which handler answers each route (fingerprints taken from a default provider) vs the Coq first-match model; entityID and the five advertised locations vs the model; independently: each path-configured advertised location, with the issuer prefix stripped, must be answered by the handler of its service (configurations with colliding routes are counted separately and only compared with the model), the Issuer of a LogoutResponse and of a refused Response must equal the entityID, the KeyDescriptor certificate must equal the certificate endpoint's and verify an issued assertion, also after the signing key was replaced in storage; WantAuthRequestsSigned in 10 spellings x SP flag: advertised string = configured string, and advertised xs:true <=> an unsigned request (POST and Redirect) is refused; the exported Endpoint methods vs the generated Gallina on 198 (path, url, host) triples; per configuration, requests whose Destination is absent / the advertised SingleSignOnService location / that plus a slash / the advertised SingleLogoutService location / another path under the issuer / the bare route path: accepted iff absent or the advertised location; the two Destination check functions (verif hooks) on random endpoint lists and Destinations vs the generated Gallina and a literal-membership oracle. distinct = (issuer kind, metadata / SSO / attribute endpoint shape, routes distinct)."
 	return run.Finish()
 }
 
